@@ -55,15 +55,16 @@ class Model:
         return sorted(k for k, v in self.slots.items() if v is not None)
 
 
-async def run_history(cap, align, hist):
+async def run_history(cap, align, hist, extra=0.0):
     from frequenz.channels import Broadcast
     from frequenz.quantities import Quantity
     from frequenz.sdk.timeseries import MovingWindow, Sample
     chan = Broadcast(name="mw")
     tx = chan.new_sender()
     m = Model(cap, align)
-    async with MovingWindow(size=cap * PERIOD, resampled_data_recv=chan.new_receiver(), input_sampling_period=PERIOD,
-                            align_to=align) as mw:
+    # (a window size that is not a whole number of periods is rounded up to the next slot by the window itself)
+    async with MovingWindow(size=cap * PERIOD - timedelta(seconds=extra), resampled_data_recv=chan.new_receiver(),
+                            input_sampling_period=PERIOD, align_to=align) as mw:
         for off_slots, off, val in hist:
             ts = align + off_slots * PERIOD + timedelta(seconds=off)
             m.update(ts, val)
@@ -169,15 +170,16 @@ def run(req):
             s, o, v = rng.choice(events)
             hist.append((base, o, None if v is None else float(10 + base)))
         evaluations += 1
-        distinct.add((cap, str(align), tuple(hist)))
+        extra = rng.choice([0.0, 0.0, 0.5, 0.7]) if cap > 1 else 0.0       # sizes like 2.5 s / 3.3 s with a 1 s period
+        distinct.add((cap, str(align), tuple(hist), extra))
         try:
-            f = asyncio.run(run_history(cap, align, hist))
+            f = asyncio.run(run_history(cap, align, hist, extra))
         except Exception as e:  # pylint: disable=broad-except
             f = f"scenario raised {type(e).__name__}: {e}"
         if len(samples) < 2:
             samples.append({"capacity": cap, "align_to": align.isoformat(), "history": hist})
         if f:
-            failure = (f, {"capacity": cap, "align_to": align.isoformat(), "history": hist})
+            failure = (f, {"capacity": cap, "window_size_s": cap - extra, "align_to": align.isoformat(), "history": hist})
     out = {"status": "failed" if failure else "ok", "evaluations": evaluations, "distinct": len(distinct), "known": {},
            "samples": samples, "wall_s": round(time.time() - t0, 1),
            "rule": "MovingWindow with capacities 1-4 and align_to on / +0.4 s / -0.25 s off the epoch grid, seeded random update "
